@@ -551,9 +551,9 @@ class Sym:
             n, d = math.isqrt(f.numerator), math.isqrt(f.denominator)
             if n * n == f.numerator and d * d == f.denominator:
                 return C(Fraction(n, d))
-        ns = _msqrt(r.n)
+        ns = _psqrt(r.n)
         dp = r.denpoly() if r.d else terms.ONE
-        ds = _msqrt(dp)
+        ds = _psqrt(dp)
         if ns is not None and ds is not None:
             cand = Sym(Rat(ns)) / Sym(Rat(ds)) if r.d else Sym(Rat(ns))
             return abs(cand)
@@ -887,6 +887,29 @@ def _msqrt(p):
     if n * n != c.numerator or d * d != c.denominator:
         return None
     return Poly({tuple((v, e // 2) for v, e in m): Fraction(n, d)})
+
+
+def _psqrt(p):
+    """exact square root of a polynomial that is a perfect square (q with q*q == p), else None"""
+    q = _msqrt(p)
+    if q is not None or len(p.t) < 3 or terms.RULES:
+        return q
+    m0, c0 = p.lt()
+    t0 = _msqrt(Poly({m0: c0}))
+    if t0 is None:
+        return None
+    q = t0
+    two_t0 = t0.scale(2)
+    for _ in range(len(p.t) + 2):
+        r = p - q * q
+        if not r.t:
+            return q
+        mr, cr = r.lt()
+        t = Poly({mr: cr}).divexact(two_t0)
+        if t is None:
+            return None
+        q = q + t
+    return None
 
 
 def _tr(op, a, b, r):
